@@ -228,7 +228,8 @@ CHECKS = {
         "rule": ("kinds map (int and interface keys incl. the nil key), watchable-seq, watchable-conc, watchable-first-set (many fresh Watchables per case, Value racing the first Set), future (deadline and cancel-only contexts), future-race, lazy, sync-storm (real parallelism: LoadOrStore / LoadAndDelete of one key from 3-6 goroutines, 300-2000 back-to-back Sets from 1-3 setters against 1-3 observer loops; always non-trivial); map plans include Range with a callback that deletes the other keys. non-trivial: map = a load-type op hit an absent key and (for interface V) a present key holding a nil interface; watchable-seq = Value before the first Set and Set-Set-Value; "
                  "watchable-conc = an observer saw the zero value before a Set or several Sets between two of its Values; future = a waiter present at Fill, >= 2 waiters; lazy = >= 2 racing callers; distinct = distinct plan JSON"),
         "assumptions": ["sync.Map as reference", "testing/synctest", "rapid v1.3.0; go1.26.8"],
-        "jobs": [{"pkg": "c18sync", "run": "TestMap|TestWatchable|TestFuture$|TestLazy|TestSyncStorm", "kinds": ["map", "watchable-seq", "watchable-conc", "watchable-first-set", "future", "lazy", "sync-storm"], "scale_thorough": 10, "shards_thorough": 16, "replay_reps": 20},
+        "jobs": [{"pkg": "c18sync", "run": "TestMap|TestWatchable|TestFuture$|TestLazy", "kinds": ["map", "watchable-seq", "watchable-conc", "watchable-first-set", "future", "lazy"], "scale_thorough": 10, "shards_thorough": 16, "replay_reps": 20},
+                 {"pkg": "c18sync", "run": "TestSyncStorm", "kinds": ["sync-storm"], "shards_quick": 4, "scale_quick": 3, "scale_thorough": 20, "shards_thorough": 8, "replay_reps": 20},
                  {"pkg": "c18sync", "goarch": "386", "run": "TestMap|TestWatchable|TestFuture$|TestSyncStorm", "kinds": ["map", "watchable-seq", "watchable-conc", "watchable-first-set", "future", "sync-storm"], "scale_quick": 0.1, "scale_thorough": 1, "shards_thorough": 2},
                  {"pkg": "c18sync", "run": "TestFutureRace|TestLazy|TestWatchableSequential|TestSyncStorm", "race": True, "kinds": ["future-race", "sync-storm"], "scale_quick": 0.5, "scale_thorough": 5, "shards_thorough": 4, "replay_reps": 20}],
     },
